@@ -122,7 +122,8 @@ def run_impl(case, use_parser=False):
             sid = counter[0]
             counter[0] += 1
             trace.append(('sub', x, sid, y, z, k == 1))
-            ctx = {'c': z} if z else None
+            # beside 'c', a bound context may carry any keys - also ones a wrapper might use for its own bookkeeping
+            ctx = ({'c': z} if z != 3 else {'c': z, 'name': 'ev9', 'callback': 7, 'state': [], 'event': 1, 'fn': 2, 'ctx': 3, 'args': 4, 'fired': 5}) if z else None
             (em.once if k == 1 else em.on)(name, cbs[y](), ctx)
         elif k == 2:
             trace.append(('off', x, None if y < 0 else y))
